@@ -80,6 +80,22 @@ func derive[S algebra[S]](s S, mk func() S, how string) S {
 		}); ok {
 			return e.Map(func(_ int, v int) int { return v })
 		}
+	case "mapdiv":
+		// a many-to-one Map that lands on the same members: {2x, 2x+1 : x in s} mapped by v/2
+		// produces every member twice (only used where distinct ints are distinct members)
+		t := mk()
+		for _, v := range s.Values() {
+			if v >= 0 && v < 1<<40 {
+				t.Add(2*v, 2*v+1)
+			} else {
+				return s
+			}
+		}
+		if e, ok := any(t).(interface {
+			Map(func(int, int) int) S
+		}); ok {
+			return e.Map(func(_ int, v int) int { return v / 2 })
+		}
 	}
 	return s
 }
@@ -461,6 +477,13 @@ func gen(kind string) func(t *rapid.T) Case {
 		c.AVia = vias[rapid.IntRange(0, len(vias)-1).Draw(t, "avia")]
 		if !c.Same {
 			c.BVia = vias[rapid.IntRange(0, len(vias)-1).Draw(t, "bvia")]
+		}
+		if !dom.Coarse(c.Cmp) && rapid.IntRange(0, 7).Draw(t, "mapdiv") == 4 {
+			if rapid.Bool().Draw(t, "mapdiv-a") || c.Same {
+				c.AVia = "mapdiv"
+			} else {
+				c.BVia = "mapdiv"
+			}
 		}
 		n := rapid.IntRange(0, 6).Draw(t, "nmut")
 		for i := 0; i < n; i++ {
